@@ -129,6 +129,31 @@ class Obj:
 
     _repr_busy: ClassVar[set] = set()
 
+    # instances of a frozen dataclass of the repository are values: equal and hashed by their fields (dictionary keys, set members).
+    # The interpreter marks them when it constructs them (`value_eq`); every other object is itself only.
+    def _value_key(self):
+        def h(v):
+            if isinstance(v, EnumMember):
+                return ("enum", v.enum, v.name)
+            if isinstance(v, Imm):
+                return ("imm", v.value)
+            if isinstance(v, list):
+                return tuple(h(x) for x in v)
+            return v
+        return (self.cls.qualname if self.cls is not None else self.kind, tuple((k, h(v)) for k, v in sorted(self.fields.items()) if k != "lineno"))
+
+    def __eq__(self, other):
+        if self is other:
+            return True
+        if isinstance(other, Obj) and self.__dict__.get("value_eq") and other.__dict__.get("value_eq") and self.cls is other.cls:
+            return self._value_key() == other._value_key()
+        return False
+
+    def __hash__(self):
+        if self.__dict__.get("value_eq"):
+            return hash(self._value_key())
+        return id(self)
+
     def __repr__(self):
         name = self.cls.name if self.cls else self.kind
         if id(self) in Obj._repr_busy or len(Obj._repr_busy) > 3:
@@ -1095,6 +1120,8 @@ class Interp:
             if key not in store:
                 try:
                     store[key] = self.eval(r[2], {}, r[1])
+                    if isinstance(store[key], (list, dict, set)):
+                        self._module_level_updates(name, r[1], r[2])
                     if isinstance(store[key], NamedTupleModel):
                         # NAME.__new__.__defaults__ = (...) at module level belongs to the definition of the tuple class
                         for st_ in r[1].tree.body:
@@ -1122,6 +1149,45 @@ class Interp:
                     v_ = self.getattr(v_, a_)
                 return v_
         raise AnalysisError(f"circuit evaluation: cannot evaluate global {name}")
+
+    def _module_level_updates(self, name, mod, value_node):
+        """a module-level container is what the module's top-level code leaves behind: the statements after its definition that change
+        it in place (`NAME.append(...)`, `NAME[k] = v`, `NAME += ...`, loops and tests around such statements) are executed once, in
+        order, when the name is first read"""
+        body = mod.tree.body
+        start = next((k_ for k_, st_ in enumerate(body) if isinstance(st_, (ast.Assign, ast.AnnAssign)) and st_.value is value_node), None)
+        if start is None:
+            return
+
+        def changes(st_) -> bool:
+            for n_ in ast.walk(st_):
+                if isinstance(n_, ast.Call) and isinstance(n_.func, ast.Attribute) and isinstance(n_.func.value, ast.Name) and n_.func.value.id == name \
+                        and n_.func.attr in ("append", "extend", "insert", "update", "add", "setdefault", "pop", "remove", "discard", "clear", "sort", "reverse"):
+                    return True
+                if isinstance(n_, ast.Subscript) and isinstance(n_.value, ast.Name) and n_.value.id == name and isinstance(n_.ctx, (ast.Store, ast.Del)):
+                    return True
+                if isinstance(n_, ast.AugAssign) and isinstance(n_.target, ast.Name) and n_.target.id == name:
+                    return True
+            return False
+
+        env: Dict[str, Any] = {}
+        for st_ in body[start + 1:]:
+            if isinstance(st_, (ast.FunctionDef, ast.AsyncFunctionDef, ast.ClassDef, ast.Import, ast.ImportFrom)):
+                continue
+            if isinstance(st_, (ast.Assign, ast.AnnAssign)) and any(isinstance(t_, ast.Name) and t_.id == name for t_ in (st_.targets if isinstance(st_, ast.Assign) else [st_.target])):
+                break  # the name is bound anew: a different object from here on
+            if isinstance(st_, (ast.Expr, ast.For, ast.If, ast.AugAssign, ast.Assign, ast.With)) and changes(st_):
+                if isinstance(st_, ast.AugAssign):
+                    cur = self.global_name(name, mod)
+                    v_ = self.eval(st_.value, env, mod)
+                    if isinstance(cur, list) and isinstance(st_.op, ast.Add):
+                        cur.extend(v_)
+                    elif isinstance(cur, (set, dict)) and isinstance(st_.op, ast.BitOr):
+                        cur.update(v_)
+                    else:
+                        raise AnalysisError(f"circuit evaluation: module-level `{src(st_)[:60]}`")
+                    continue
+                self.stmt(st_, env, mod)
 
     def attribute(self, e, env, m):
         # dotted global (module.attr chains)
@@ -1491,8 +1557,8 @@ class Interp:
                 return isinstance(o, list)
             if n == "dict":
                 return isinstance(o, dict)
-            if n == "GeneratorType":
-                return False  # the modelled collaborators return plain values
+            if n in ("GeneratorType", "Generator"):
+                return False  # generator functions are followed through when they are called: what comes back is their value
             if t[1] in ("enum.Enum", "enum.IntEnum"):
                 return isinstance(o, EnumMember)
             if n in ("bytearray", "slice", "complex"):
@@ -1645,6 +1711,18 @@ class Interp:
                 todo.append("Exception")  # a class the repository does not define (library exception): an Exception
         return False
 
+    def _frozen_dataclass(self, c) -> bool:
+        cache = self.repo.__dict__.setdefault("_nqsa_frozen", {})
+        if c.qualname not in cache:
+            ok = False
+            for d_ in c.node.decorator_list:
+                if isinstance(d_, ast.Call) and (dotted(d_.func) or "").split(".")[-1] == "dataclass":
+                    kw = {k_.arg: k_.value for k_ in d_.keywords}
+                    if any(isinstance(kw.get(n_), ast.Constant) and kw[n_].value is True for n_ in ("frozen", "unsafe_hash")):
+                        ok = True
+            cache[c.qualname] = ok
+        return cache[c.qualname]
+
     def _receiver(self, fn, o):
         """what a method called through the instance o receives first: the instance, its class for a classmethod, nothing for a staticmethod"""
         decs = {(dotted(d_) or "").split(".")[-1] for d_ in fn.decorator_list}
@@ -1702,6 +1780,8 @@ class Interp:
             fields[n] = v
         fields.update(kwargs)
         o = Obj(c, fields)
+        if self._frozen_dataclass(c):
+            o.value_eq = True
         if getattr(self.sc, "run_constructors", False) and self.repo.is_dataclass(c):
             for fname, ann, val, k in self.repo.dataclass_fields(c):
                 if fname not in o.fields:
